@@ -609,18 +609,11 @@ fn power_levels(
         if old == newv {
             continue;
         }
-        // "current value" / "new value" of an absent field: the spec text does not say whether
-        // the default counts; decided only when both readings agree.
-        let old_rej_present = old.is_some_and(|o| o > sender_level);
-        let new_rej_present = newv.is_some_and(|n| n > sender_level);
-        let old_rej_default = old.unwrap_or(default) > sender_level;
-        let new_rej_default = newv.unwrap_or(default) > sender_level;
-        let strict = old_rej_present || new_rej_present;
-        let with_defaults = old_rej_default || new_rej_default;
-        if strict != with_defaults {
-            return Err(Unspecified("pl: absent field compared through its default"));
-        }
-        if strict {
+        // The value of an unspecified field is its specified default ("Defaults to 50 if
+        // unspecified"), so an added or removed field is compared through that default. (An earlier
+        // version of this reference left this case Unspecified because Synapse skips absent sides;
+        // the spec text defines the value of an absent key, so the literal reading is used.)
+        if old.unwrap_or(default) > sender_level || newv.unwrap_or(default) > sender_level {
             return Err(Reject("pl: scalar field change above sender level"));
         }
     }
